@@ -146,6 +146,17 @@ def _impl_aut(case):
     return [out, True, _impl_vf2(G, A)]
 
 
+def _matcher(A, sub):
+    """the matcher the analysis builds; if a refactoring removes the private helper, the same VF2 call made directly
+    (the contract monitored is networkx's, not the helper's name)"""
+    mk = getattr(A, "_make_matcher", None)
+    if mk is not None:
+        return mk(sub)
+    from networkx.algorithms.isomorphism import GraphMatcher, categorical_node_match, categorical_edge_match
+    return GraphMatcher(sub, sub, node_match=categorical_node_match(["element", "charge"], ["*", 0]),
+                        edge_match=categorical_edge_match(["order"], [1.0]))
+
+
 def _impl_vf2(G, A):
     """The VF2 enumerations the analysis consumes (Automorphism._make_matcher(sub).isomorphisms_iter(), one per component in
     component order), each as a set of maps given as sets of (node, image) items - only when the reported count is <= 200."""
@@ -154,7 +165,7 @@ def _impl_vf2(G, A):
     out = []
     for comp in A.components:
         sub = G.subgraph(comp).copy()
-        out.append(S([S([[u, v] for u, v in sigma.items()]) for sigma in A._make_matcher(sub).isomorphisms_iter()]))
+        out.append(S([S([[u, v] for u, v in sigma.items()]) for sigma in _matcher(A, sub).isomorphisms_iter()]))
     return out
 
 
